@@ -41,7 +41,7 @@ Fixpoint hobs_list (l : list hobs) : list sobs :=
   | [] => []
   | OExec r s tr :: rest => mkObs (res_of r) s (N.of_nat (count_ev is_builtin tr)) :: hobs_list rest
   | OOp _ :: rest => hobs_list rest
-  | OStuck :: rest => mkObs RDiverge 0 0 :: hobs_list rest
+  | OStuck _ :: rest => mkObs RDiverge 0 0 :: hobs_list rest
   end.
 Definition eff (limit : N) := if limit =? 0 then max_uint64 else limit.
 Definition model_ok (c : case) : bool :=
